@@ -9,6 +9,7 @@ import (
 	"math/rand/v2"
 	"os"
 	"strings"
+	"time"
 
 	"github.com/spq/pkappa2/verif/netsim"
 	"github.com/spq/pkappa2/verif/sim"
@@ -99,11 +100,14 @@ func refName(full string) string {
 	return typ + ":" + sub
 }
 
+// genBase: start of the generated capture (unix seconds); set by Gen.
+var genBase int64
+
 // genDef draws a tag definition. existing: names that exist (for references).
 func genDef(r *rand.Rand, self string, existing []string, convs []string, nStreams int, depth int) string {
 	marker := func() string { return netsim.Markers[r.IntN(len(netsim.Markers))] }
 	atom := func() string {
-		switch r.IntN(16) {
+		switch r.IntN(17) {
 		case 0:
 			return fmt.Sprintf("id:%d:", r.IntN(nStreams+2))
 		case 1:
@@ -148,6 +152,10 @@ func genDef(r *rand.Rand, self string, existing []string, convs []string, nStrea
 				}
 			}
 			return "ltime:\"2020-01-01 0000:\""
+		case 15:
+			// an absolute time bound inside the capture
+			t := time.Unix(genBase+int64(r.IntN(90)), 0).UTC().Format("2006-01-02 150405")
+			return []string{"ltime:\"" + t + ":\"", "ftime:\":" + t + "\"", "ftime:\"" + t + ":\""}[r.IntN(3)]
 		default:
 			return fmt.Sprintf("data:\"[a-z]%s\"", marker())
 		}
@@ -205,6 +213,7 @@ func Gen(prop, tier string, seed, run uint64) Plan {
 	cfg.MaxMsgs = 5
 	cfg.BigMsgs = false
 	p.Net = *netsim.Gen(r, cfg)
+	genBase = p.Net.BaseUnix
 	nf := len(netsim.Build(&p.Net).Files)
 	nStreams := len(p.Net.Convs)
 	p.Knobs = Knobs{NumCPU: 1, SnapEvery: 100_000, CleanupMinFree: 16 << 20}
